@@ -177,7 +177,10 @@ def run(repo: Repo, L: Ledger, tier: str):
                 sorted_var = n.targets[0].id
         names_var = names_def[0].targets[0].id if names_def else None
         body = loops[0].body
-        if is_name(a0, sorted_var) and is_name(a1, names_var) and isinstance(loops[0].target, ast.Tuple) and len(loops[0].target.elts) == 2:
+        roles_ok = (is_name(a0, sorted_var) or any(a0 is s_ for s_ in srt)) and is_name(a1, names_var)
+        if not roles_ok:
+            raise AnalysisError(f"{rbs.short}: zip({norm(a0)[:30] if a0 is not None else None}, {norm(a1)[:30] if a1 is not None else None}) does not pair the size-sorted scaffolds with the list of their names in a form understood")
+        if roles_ok and isinstance(loops[0].target, ast.Tuple) and len(loops[0].target.elts) == 2:
             tv, nv = (e.id for e in loops[0].target.elts)
             # exactly one store of a name in the loop, unconditional, and nothing that skips or stops an iteration; other
             # statements (counters, logging) do not matter
@@ -190,7 +193,9 @@ def run(repo: Repo, L: Ledger, tier: str):
         sorted_var = next((n.targets[0].id for n in walk_shallow(rbs.node) if isinstance(n, ast.Assign) and n.value in srt), None)
         start0 = len(it.args) == 1 and not it.keywords
         body = loops[0].body
-        if it.args and is_name(it.args[0], sorted_var) and start0 and isinstance(loops[0].target, ast.Tuple) and len(body) == 1 and isinstance(body[0], ast.Assign):
+        if not (it.args and (is_name(it.args[0], sorted_var) or any(it.args[0] is s_ for s_ in srt))):
+            raise AnalysisError(f"{rbs.short}: enumerate({norm(it.args[0])[:40] if it.args else ''}) does not run over the size-sorted scaffolds in a form understood")
+        if it.args and start0 and isinstance(loops[0].target, ast.Tuple) and len(body) == 1 and isinstance(body[0], ast.Assign):
             iv_, tv = (e.id for e in loops[0].target.elts)
             ok3c = norm(body[0]).replace(" ", "") == f"{tv}.name={names_def[0].targets[0].id}[{iv_}]"
     if not ok3c and not (len(loops) == 1 and isinstance(loops[0].iter, ast.Call) and dotted(loops[0].iter.func) in ("zip", "enumerate")):
